@@ -115,7 +115,7 @@ impl Property for C10 {
         ]
     }
     fn expected_probes(&self) -> Vec<&'static str> {
-        vec!["success", "flag_mismatch", "parity_error", "short_block", "long_block", "verify_ok", "verify_mismatch", "past_end", "de_zero", "d_is_ff", "ix_wraps", "ix_in_rom", "block_crosses_128", "empty_block", "paging_locked_then_ignored_write", "rewind_between_requests", "rewind_after_end_of_tape", "play_stop_between_requests", "second_tape_inserted"]
+        vec!["success", "flag_mismatch", "parity_error", "short_block", "long_block", "verify_ok", "verify_mismatch", "past_end", "de_zero", "d_is_ff", "ix_wraps", "ix_in_rom", "block_crosses_128", "empty_block", "paging_locked_then_ignored_write", "rewind_between_requests", "rewind_after_end_of_tape", "play_stop_between_requests", "second_tape_inserted", "breakpoints_inside_the_rom_routine"]
     }
 
     fn gen(&self, rng: &mut Rng, _tier: Tier, _idx: u64) -> Scenario {
@@ -130,6 +130,7 @@ impl Property for C10 {
         sc.set("pg_bank", rng.range(0, 7));
         sc.set("pg_ignored", rng.range(0, 255));
         let pg_between = rng.chance(1, 3);
+        sc.set("debug_bp", rng.chance(1, 6) as i64);
         let rewinds = rng.chance(1, 3);
         let nb = rng.range(0, 6) as usize;
         let mut blocks: Vec<Vec<u8>> = vec![];
@@ -228,6 +229,13 @@ impl Property for C10 {
         let (asset, stats) = SimAsset::new(img.clone(), plan);
         e.load_tape(Tape::Tap(AnyAsset::Sim(asset))).map_err(|x| Fail::new("C10.load_tape", "", format!("{:?}", x)))?;
         let mut next_block = 0usize;
+        // a debugging host may keep breakpoints inside the ROM routine (also on the very address the
+        // fast-load trap watches); stops there are resumed at once and change nothing
+        let debug_bp = sc.get("debug_bp") != 0;
+        EXTRA_BREAKPOINTS.with(|x| *x.borrow_mut() = if debug_bp { vec![0x056B, 0x0556, 0x053F] } else { vec![] });
+        if debug_bp {
+            ctx.probe("breakpoints_inside_the_rom_routine");
+        }
         for op in sc.ops.iter() {
             if op.k == "pg" {
                 if m128 {
@@ -530,6 +538,7 @@ impl Property for C10 {
             ctx.state(hs.get());
         }
         ctx.fault_n("short_read(n)", stats.borrow().short_reads);
+        EXTRA_BREAKPOINTS.with(|x| x.borrow_mut().clear());
         Ok(())
     }
 }
